@@ -1,4 +1,5 @@
 
+#include <filesystem>
 #include <fstream>
 
 #include "coloquinte.hpp"
@@ -7,8 +8,10 @@ namespace coloquinte {
 
 void exportIspdAux(const std::string &filename) {
   std::ofstream f(filename + ".aux");
-  f << "RowBasedPlacement : " << filename << ".nodes " << filename << ".nets "
-    << filename << ".pl " << filename << ".scl" << std::endl;
+  // The files are listed relative to the directory of the .aux file
+  std::string name = std::filesystem::path(filename).filename().string();
+  f << "RowBasedPlacement : " << name << ".nodes " << name << ".nets " << name
+    << ".pl " << name << ".scl" << std::endl;
 }
 
 void exportIspdNodes(const Circuit &circuit, const std::string &filename) {
